@@ -223,9 +223,10 @@ def r3_length(ctx):
     ctx.ob("C18.R3", RES, "Result._global_n", gn, "n='min' truncates to the shortest evaluation, a number truncates to that number",
            len(st) == 1 and unparse(st[0]) == "min(env_lengths) if n == 'min' and env_lengths else n", stmt="shorten_to")
     tres = ctx.fn(RES, "TransactionResult.filter")
-    idx = [x for x in walk_shallow(tres) if isinstance(x, ast.Assign) and unparse(x.targets[0]) == "packed['index']"]
-    ctx.ob("C18.R3", RES, "TransactionResult.filter", idx[0] if idx else tres, "the index written by the reader starts at 1 (what `index <= n` assumes)",
-           len(idx) == 1 and unparse(idx[0].value) == "range(1, N + 1)")
+    idx = [x for x in walk_shallow(tres) if isinstance(x, ast.Assign) and isinstance(x.targets[0], ast.Subscript) and const_str(x.targets[0].slice) == "index"]
+    okx = len(idx) == 1 and isinstance(idx[0].value, ast.Call) and call_name(idx[0].value) == "range" and len(idx[0].value.args) == 2 and unparse(idx[0].value.args[0]) == "1" \
+        and isinstance(idx[0].value.args[1], ast.BinOp) and unparse(idx[0].value.args[1].right) == "1"
+    ctx.ob("C18.R3", RES, "TransactionResult.filter", idx[0] if idx else tres, "the index written by the reader starts at 1 (what `index <= n` assumes)", okx)
     grp = [x for x in walk_shallow(gn) if isinstance(x, ast.For) and "groupby(" in unparse(x.iter)]
     ok = len(grp) == 2 and all(unparse(g.iter) == "self.interactions.groupby(3, 'count')" for g in grp)
     ctx.ob("C18.R3", RES, "Result._global_n", grp[0] if grp else gn, "lengths are counted per (environment, learner, evaluator) triple", ok, stmt="groupby(3,'count')")
@@ -255,7 +256,7 @@ def r4_order(ctx):
             ("lo2", "my_bisect_left(lrn_ids, l, lo1, hi1)"), ("hi2", "my_bisect_right(lrn_ids, l, lo1, hi1)"),
             ("lo3", "my_bisect_left(val_ids, v, lo2, hi2)"), ("hi3", "my_bisect_right(val_ids, v, lo2, hi2)")]
     ctx.ob("C18.R4", RES, "Result._remove", rm, "bisects are nested environment -> learner -> evaluator, each inside the previous range", bis == want, detail={"bisects": bis}, stmt="nested bisects")
-    ok = "ids = sorted(ids)" in unparse(rm) and "e, l, v = ids[i]" in unparse(rm)
+    ok = "ids = sorted(ids)" in unparse(rm) and ("e, l, v = ids[" in unparse(rm))
     ctx.ob("C18.R4", RES, "Result._remove", rm, "the ids to remove are visited in sorted (index) order and unpacked as (e,l,v)", ok, stmt="sorted ids")
 
 
